@@ -8,7 +8,7 @@ from ..cfg import NORMAL, Node
 from ..core import Ctx
 from ..flow import ALL, find_path, names_in
 from ..model import AnalysisError, FunctionInfo, dotted, norm_text
-from .common import null_edges, str_consts, edge_target, kwarg, reachable_from
+from .common import null_edges, owner_tops, str_consts, edge_target, kwarg, reachable_from
 
 EXPLANATION = (
     "Static analysis of filters.py and the scan APIs: (R1) the operator tables agree and are exhaustive (enum members = handler "
@@ -457,10 +457,16 @@ def r4(ctx: Ctx) -> None:
     table = ctx.prog.cls("transaction.Table")
     helpers = {"_read_datafile_table", "_iter_file_batches"}
     for m in table.methods.values():
+        owners = {o.name for o in owner_tops(ctx, m)}
+        if ctx.prog.is_transparent(m) and owners:
+            # a helper introduced later is part of the readers that use it: it may only be used by the two reader helpers
+            in_helpers = owners <= helpers
+        else:
+            in_helpers = m.name in helpers
         for n in ctx.cfg(m).calls():
             if n.callee and n.callee.kind == "prim" and n.callee.name in ("pyarrow.parquet.read_table", "pyarrow.parquet.ParquetFile",
                                                                          "method.read_table", "method.ParquetFile"):
-                ctx.ob("C12.R4", m, "Parquet parse site", n, m.name in helpers,
+                ctx.ob("C12.R4", m, "Parquet parse site", n, in_helpers,
                        "every scan API reads data files through the same two helpers", nontrivial=False)
     apis = ["scan", "to_pandas", "scan_batches", "iter_records", "iter_pandas"]
     for a in apis:
@@ -536,7 +542,14 @@ def r4(ctx: Ctx) -> None:
     ib = [n for n in ig.calls() if n.callee and n.callee.name.endswith("iter_batches")]
     rcv = {norm_text(kwarg(n.ast, "columns")) for n in ib if kwarg(n.ast, "columns") is not None}
     rc = [n for n in ig.nodes if n.kind == "stmt" and isinstance(n.ast, ast.Assign) and any(isinstance(t, ast.Name) and t.id in rcv for t in n.ast.targets)]
-    ok = bool(rc) and isinstance(rc[0].ast.value, ast.IfExp) and "compute_expr" in norm_text(rc[0].ast.value.test) and isinstance(rc[0].ast.value.body, ast.Constant)  # type: ignore[union-attr]
+    def _tests_expr(t: ast.AST) -> bool:
+        if "compute_expr" in norm_text(t):
+            return True
+        # a hoisted flag: `filtering = compute_expr is not None`
+        return any(isinstance(n_.ast, ast.Assign) and any(isinstance(tg, ast.Name) and tg.id in names_in(t) for tg in n_.ast.targets)
+                   and "compute_expr" in norm_text(n_.ast.value) for n_ in ig.nodes if n_.kind == "stmt")
+
+    ok = bool(rc) and isinstance(rc[0].ast.value, ast.IfExp) and _tests_expr(rc[0].ast.value.test) and isinstance(rc[0].ast.value.body, ast.Constant)  # type: ignore[union-attr]
     ok2 = bool(ib) and len(rcv) == 1
     ctx.ob("C12.R4", it, "when filtering, every column is read and projection happens after the filter", rc[0] if rc else None,
            ok and ok2, "read_columns = None if compute_expr is not None else columns")
